@@ -280,6 +280,13 @@ Fixpoint nodup_b (l : list cid) : bool :=
 Definition subset_b (a b : list cid) : bool := forallb (fun x => mem x b) a.
 
 (** ---------- cases ---------- *)
+(** typed constructors for the harness (numerals are read in N scope; no type
+    inference needed on the large case terms) *)
+Definition cC (v m : N) : cid := (v, m).
+Definition cG (v m : N) (n : node) : cid * node := ((v, m), n).
+Definition cH (v m : N) (b : bool) : cid * bool := ((v, m), b).
+Definition cO (e : list cid) (r : res) : list cid * res := (e, r).
+
 (** [CWalks g tk fuel ws obs has]: the walks [ws] were run one after the other on
     the real walker over the blockstore/fetcher described by [g], sharing one
     tracker of kind [tk] (fresh at the start); [obs] = per walk the emitted CIDs
